@@ -29,6 +29,11 @@ CLAIMED = {
   note="Trusted: gowp, go/ssa, solvers; strconv.ParseInt result not modelled (the canonical-form clause is proved from the guard in front of it); in arrayDefineOwnProperty the callees objectDefineOwnProperty/getOwnProperty/delete are abstracted (havoc) and the clauses are assertions at their call sites. One defect fixed (non-canonical index strings).",
   technique="contract-based deductive verification: postconditions over closed clamp formulas, at_call assertions and loop variant in 15.4.5.1; VCs over go/ssa discharged by z3/cvc5",
   ref="6 C08"),
+ "C09": dict(
+  text="Proof of the position handling of String.prototype methods: slice/substring/substr clamp ToInteger of their arguments into [0, length] by the closed formulas of ES5 15.5.4.13-15 and never slice outside the string for any argument (NaN, +-Infinity, values saturating ToInteger); charAt/charCodeAt pass ToInteger of the position (never a wrapped 32-bit value) to the code-unit accessor, accept any receiver (String object content, else ToString) and never dereference a missing string object; lastIndexOf/indexOf keep every slice of the subject in bounds and treat only +Infinity as 'from the end'; indexOf/lastIndexOf convert the byte offset of a match by counting UTF-16 code units. UTF-16 correctness of offsets for non-ASCII subjects (mixed byte/rune/code-unit offsets, known finding), split/replace/match, case mapping and localeCompare are not covered.",
+  note="Trusted: gowp, go/ssa, solvers; strings.Index/LastIndex as a fixed function with -1 <= r <= len(s)-len(t); utf16.Encode length bounds; argument lists not written during a native call (stable). Three defects fixed (substr overflow panic, charAt on generic receivers, lastIndexOf with -Infinity / huge positions), two recorded.",
+  technique="contract-based deductive verification: safety VCs (slice bounds) and at_call assertions over ToInteger spec functions, go/ssa VCs discharged by z3/cvc5",
+  ref="6 C09"),
  "C13": dict(
   text="Proof for all doubles that Math.round equals the ES5 15.8.2.15 definition (ties up, signed zero), the Math.pow/atan2 NaN rows that do not depend on library accuracy, and that escape() leaves exactly the B.2.1 character set unescaped; further kernels as listed in the evidence. Accuracy of transcendental functions and the URI sets (regexp, net/url) are not covered.",
   note="Trusted: gowp, go/ssa, solvers; math.Floor/Ceil/Copysign/Pow per Go documentation (assumed contracts listed in the evidence); argument arrays assumed not written during a native call.",
